@@ -36,6 +36,7 @@ type Sort struct {
 type SortField struct {
 	Name string // selector name (SMT)
 	Go   string // Go field name
+	Acc  string // the name the selector is made from, when it is not the Go name (a renamed field keeps its selector: names.go)
 	Sort *Sort
 }
 
@@ -69,7 +70,11 @@ func NewDT(name string, fields []SortField) *Sort {
 	}
 	s := &Sort{Kind: KDT, Name: name, Ctor: "mk_" + name}
 	for i := range fields {
-		fields[i].Name = name + "_" + sanitize(fields[i].Go)
+		base := fields[i].Go
+		if fields[i].Acc != "" {
+			base = fields[i].Acc
+		}
+		fields[i].Name = name + "_" + sanitize(base)
 	}
 	s.Fields = fields
 	dtSorts[name] = s
@@ -680,6 +685,11 @@ func Sel(t *Term, i int) *Term {
 func SelName(t *Term, goName string) *Term {
 	for i, f := range t.Sort.Fields {
 		if f.Go == goName {
+			return Sel(t, i)
+		}
+	}
+	for i, f := range t.Sort.Fields {
+		if f.Acc != "" && f.Acc == goName {
 			return Sel(t, i)
 		}
 	}
